@@ -28,7 +28,8 @@ mutual
     | .declare p e => .declare p (erase e)
     | .assign x e => .assign x (erase e)
     | .opassign x o e => .opassign x o (erase e)
-    | .lambda ps b => .lambda ps (erase b)
+    | .lambda ps b =>
+      .lambda (ps.map fun p => match p with | .mk n d sp a => .mk n (d.map erase) sp (a.map erase)) (erase b)
     | .brk n e => .brk n (e.map erase)
     | .ret e => .ret (e.map erase)
     | .throw_ e => .throw_ (erase e)
